@@ -19,57 +19,72 @@ def c04(tier, seed, dst, facts):
     hs = []
     rnd = random.Random(seed)
 
-    # ---------------------------------------------------------------- (a) one-slot match, leaf
+    # ---------------------------------------------------------------- (a) one-slot match, leaf; (b) one-slot apply
+    # One harness per NODE, one block per feature of that node (each block has its own symbolic bundle and polarity and
+    # a concrete slot, R1); the role of every assertion carries the feature name. Merging the 26 + 26 one-slot shapes into
+    # 7 + 7 harnesses saves the per-harness code generation and goto-instrument overhead (about 10 s each).
+    by_node = {}
     for fi in range(n):
-        sub = NODE_OF[fi] >= 3
-        hs.append(G.H("c04_match_%02d_%s" % (fi, fname(fi)), "match-one-feature", "subrule", G.T(HDR + """
+        by_node.setdefault(NODE_OF[fi], []).append(fi)
+    for ni, feats in sorted(by_node.items()):
+        blocks = []
+        for fi in feats:
+            sub = NODE_OF[fi] >= 3
+            blocks.append(G.T("""
+    {   // [±@fn@]
+        let s = any_seg();
+        let b = any_bin();
+        let r = sub.match_feat_mod(&Some(ModKind::Binary(b)), @fi@, s);
+        let exp = ref_match_feat(&s, @fi@, b == BinMod::Positive);
+        match r { Ok(v) => assert!(v == exp, "role=match-one-feature-@fn@"), Err(_) => assert!(false, "role=unexpected-error-@fn@") }
+        match sub.match_feat_mod(&None, @fi@, s) { Ok(v) => assert!(v, "role=unnamed-feature-always-matches-@fn@"), Err(_) => assert!(false, "role=unexpected-error-@fn@") }
+        kani::cover!(exp && b == BinMod::Positive);
+        kani::cover!(exp && b == BinMod::Negative);
+        @cover_absent@
+    }""", fi=fi, fn=fname(fi), cover_absent='kani::cover!(!exp && ref_feat(&s, %d).is_none() && b == BinMod::Negative);' % fi if sub else ""))
+        nm = "c04_match_%s" % NODE_NAME[ni]
+        hs.append(G.H(nm, "match-one-feature", "subrule", G.T(HDR + """
 fn @name@() {
-    let s = any_seg();
-    let b = any_bin();
     let sub = mk_sub(RuleType::Substitution);
-    let r = sub.match_feat_mod(&Some(ModKind::Binary(b)), @fi@, s);
-    let exp = ref_match_feat(&s, @fi@, b == BinMod::Positive);
-    match r { Ok(v) => assert!(v == exp, "role=match-one-feature"), Err(_) => assert!(false, "role=unexpected-error") }
-    match sub.match_feat_mod(&None, @fi@, s) { Ok(v) => assert!(v, "role=unnamed-feature-always-matches"), Err(_) => assert!(false, "role=unexpected-error") }
-    kani::cover!(exp && b == BinMod::Positive);
-    kani::cover!(exp && b == BinMod::Negative);
-    @cover_absent@
+@blocks@
     std::mem::forget(sub);
 }
-""", name="c04_match_%02d_%s" % (fi, fname(fi)), fi=fi, unwind=unwind,
-            cover_absent='kani::cover!(!exp && ref_feat(&s, %d).is_none() && b == BinMod::Negative);' % fi if sub else ""),
+""", name=nm, unwind=unwind, blocks="\n".join(blocks)),
             shared=[G.SUBRULE_SHARED], functions=["SubRule::match_feat_mod", "SubRule::match_seg_kind", "Segment::feat_match", "FType::to_node_mask"],
-            symbolic="all bundles (2^24 x (None + 2^16 places)), polarity", shape="[±%s]" % fname(fi), unwind=unwind, stubs=STUBS))
-
-    # ---------------------------------------------------------------- (b) one-slot apply
-    for fi in range(n):
-        sub = NODE_OF[fi] >= 3
-        hs.append(G.H("c04_apply_%02d_%s" % (fi, fname(fi)), "apply-one-feature", "subrule", G.T(HDR + """
+            symbolic="per feature: all bundles (2^24 x (None + 2^16 places)), polarity", shape="[±F] for F in {%s}" % ", ".join(fname(f) for f in feats), unwind=unwind, stubs=STUBS, weight=len(feats)))
+        blocks = []
+        for fi in feats:
+            sub = NODE_OF[fi] >= 3
+            blocks.append(G.T("""
+    {   // [±@fn@] as output
+        let s = any_seg();
+        let b = any_bin();
+        let pos = b == BinMod::Positive;
+        let mut m = mods_new();
+        m.feats[@fi@] = Some(ModKind::Binary(b));
+        let mut t = s;
+        let r = t.apply_seg_mods(&alphas, m.nodes, m.feats, P, false);
+        assert!(r.is_ok(), "role=unexpected-error-@fn@");
+        let e = ref_apply_feat(&s, @fi@, pos);
+        assert!(same_features(&t, &e), "role=apply-one-feature-@fn@");
+        if inv(&s) { assert!(t == e, "role=apply-one-feature-bits-@fn@"); }
+        // the named feature now has the named value, unless it was a negative feature of an absent sub-node
+        if pos || ref_feat(&s, @fi@).is_some() { assert!(ref_match_feat(&t, @fi@, pos), "role=named-feature-has-named-value-@fn@"); }
+        else { assert!(t == s, "role=negative-on-absent-subnode-does-nothing-@fn@"); }
+        kani::cover!(pos && t != s);
+        kani::cover!(!pos && t != s);
+        @cover_absent@
+    }""", fi=fi, fn=fname(fi), cover_absent=('kani::cover!(pos && ref_feat(&s, %d).is_none());\n        kani::cover!(!pos && ref_feat(&s, %d).is_none());' % (fi, fi)) if sub else ""))
+        nm = "c04_apply_%s" % NODE_NAME[ni]
+        hs.append(G.H(nm, "apply-one-feature", "subrule", G.T(HDR + """
 fn @name@() {
-    let s = any_seg();
-    let b = any_bin();
-    let pos = b == BinMod::Positive;
     let alphas: RefCell<HashMap<char, Alpha>> = RefCell::new(HashMap::new());
-    let mut m = Modifiers::new();
-    m.feats[@fi@] = Some(ModKind::Binary(b));
-    let mut t = s;
-    let r = t.apply_seg_mods(&alphas, m.nodes, m.feats, P, false);
-    assert!(r.is_ok(), "role=unexpected-error");
-    let e = ref_apply_feat(&s, @fi@, pos);
-    assert!(same_features(&t, &e), "role=apply-one-feature");
-    if inv(&s) { assert!(t == e, "role=apply-one-feature-bits"); }
-    // the named feature now has the named value, unless it was a negative feature of an absent sub-node
-    if pos || ref_feat(&s, @fi@).is_some() { assert!(ref_match_feat(&t, @fi@, pos), "role=named-feature-has-named-value"); }
-    else { assert!(t == s, "role=negative-on-absent-subnode-does-nothing"); }
-    kani::cover!(pos && t != s);
-    kani::cover!(!pos && t != s);
-    @cover_absent@
+@blocks@
     std::mem::forget(alphas);
 }
-""", name="c04_apply_%02d_%s" % (fi, fname(fi)), fi=fi, unwind=unwind,
-            cover_absent=('kani::cover!(pos && ref_feat(&s, %d).is_none());\n    kani::cover!(!pos && ref_feat(&s, %d).is_none());' % (fi, fi)) if sub else ""),
+""", name=nm, unwind=unwind, blocks="\n".join(blocks)),
             functions=["Segment::apply_seg_mods", "Segment::set_feat", "Segment::set_node", "Place::set_*", "FType::to_node_mask"],
-            symbolic="all bundles, polarity", shape="[±%s] as output" % fname(fi), unwind=unwind, stubs=STUBS, jobs=8))
+            symbolic="per feature: all bundles, polarity", shape="[±F] as output for F in {%s}" % ", ".join(fname(f) for f in feats), unwind=unwind, stubs=STUBS, weight=len(feats)))
 
     # ---------------------------------------------------------------- (c) nodes
     for ni, nd in enumerate(G.NODES):
@@ -94,7 +109,7 @@ fn @name@() {
     let b = any_bin();
     let pos = b == BinMod::Positive;
     let alphas: RefCell<HashMap<char, Alpha>> = RefCell::new(HashMap::new());
-    let mut m = Modifiers::new();
+    let mut m = mods_new();
     m.nodes[@ni@] = Some(ModKind::Binary(b));
     let mut t = s;
     let r = t.apply_seg_mods(&alphas, m.nodes, m.feats, P, false);
@@ -113,7 +128,7 @@ fn @name@() {
     sub_pairs = [(f, g) for (f, g) in same_node_pairs if NODE_OF[f] >= 3]       # 1 + 1 + 15 + 1 = 18
     cross = [(14, 16), (15, 18), (17, 24), (2, 15), (11, 19), (6, 25)]
     if tier == "quick":
-        pairs = sub_pairs[:2] + rnd.sample(sub_pairs[2:-1], 4) + sub_pairs[-1:] + [cross[seed % len(cross)]]
+        pairs = [sub_pairs[:2][seed % 2]] + rnd.sample(sub_pairs[2:-1], 2) + sub_pairs[-1:] + [cross[seed % len(cross)]]
     else:
         pairs = same_node_pairs + cross
     for (f, g) in pairs:
@@ -124,7 +139,7 @@ fn @name@() {
     let s = any_seg();
     let bf = any_bin(); let bg = any_bin();
     let alphas: RefCell<HashMap<char, Alpha>> = RefCell::new(HashMap::new());
-    let mut m = Modifiers::new();
+    let mut m = mods_new();
     m.feats[@f@] = Some(ModKind::Binary(bf));
     m.feats[@g@] = Some(ModKind::Binary(bg));
     let mut t = s;
@@ -143,7 +158,7 @@ fn @name@() {
             shape="[±%s, ±%s] as output" % (fname(f), fname(g)), unwind=unwind, stubs=STUBS, jobs=8))
 
     # two-slot *match* through the real SubRule::match_modifiers on a directly built one-segment word
-    mm_pairs = [(15, 14), (19, 20)] if tier == "quick" else [(15, 14), (19, 20), (16, 17), (24, 25), (0, 11), (6, 15), (18, 23)]
+    mm_pairs = [[(15, 14), (19, 20)][seed % 2]] if tier == "quick" else [(15, 14), (19, 20), (16, 17), (24, 25), (0, 11), (6, 15), (18, 23)]
     for (f, g) in mm_pairs:
         nm = "c04_matchmods_%02d_%02d" % (f, g)
         hs.append(G.H(nm, "match-modifiers-word", "subrule", G.T(HDR + """
@@ -152,7 +167,7 @@ fn @name@() {
     let bf = any_bin(); let bg = any_bin();
     let sub = mk_sub(RuleType::Substitution);
     let w = word1(syll_of(&[s], any_stress(), kani::any()));
-    let mut m = Modifiers::new();
+    let mut m = mods_new();
     m.feats[@f@] = Some(ModKind::Binary(bf));
     m.feats[@g@] = Some(ModKind::Binary(bg));
     let r = sub.match_modifiers(&m, &w, &SegPos::new(0, 0), P);
@@ -168,7 +183,7 @@ fn @name@() {
             symbolic="all bundles, polarities, stress, tone", shape="[±%s, ±%s] on a 1-segment word" % (fname(f), fname(g)), unwind=unwind, stubs=STUBS, cap_s=1500, jobs=6))
 
     # ---------------------------------------------------------------- long segment: every copy is changed
-    for fi in ([15, 11] if tier == "quick" else [15, 11, 2, 19, 24, 6]):
+    for fi in ([[15, 11, 19, 24][seed % 4]] if tier == "quick" else [15, 11, 2, 19, 24, 6]):
         nm = "c04_long_apply_%02d" % fi
         hs.append(G.H(nm, "apply-long-segment", "subrule", G.T(HDR + """
 fn @name@() {
@@ -177,7 +192,7 @@ fn @name@() {
     let b = any_bin();
     let mut sy = syll_of(&[x, a, a, y], any_stress(), kani::any());
     let alphas: RefCell<HashMap<char, Alpha>> = RefCell::new(HashMap::new());
-    let mut m = Modifiers::new();
+    let mut m = mods_new();
     m.feats[@fi@] = Some(ModKind::Binary(b));
     let r = sy.apply_seg_mods(&alphas, &m, 1, P);
     let e = ref_apply_feat(&a, @fi@, b == BinMod::Positive);
@@ -194,7 +209,10 @@ fn @name@() {
     # ---------------------------------------------------------------- (e) alphas: capture by the matcher, use by the applier
     per_node = [2, 6, 11, 15, 16, 20, 24]           # one feature per node
     if tier == "quick":
-        alpha_shapes = [(15, 15, False, False), (20, 20, False, True), (11, 11, True, False), (24, 16, False, False)]
+        # three of the capture/use polarity classes per run, features rotating with VERIF_SEED (thorough runs them all)
+        rot = [15, 20, 11, 24, 16, 6, 2]
+        f0, f1, f2 = rot[seed % 7], rot[(seed + 2) % 7], rot[(seed + 4) % 7]
+        alpha_shapes = [(f0, f0, False, True), (f1, f1, True, False), (f2, rot[(seed + 1) % 7], False, False)]
     else:
         alpha_shapes = [(f, f, ic, iu) for f in range(n) for (ic, iu) in [(False, False), (False, True)]]
         alpha_shapes += [(f, f, True, iu) for f in per_node for iu in (False, True)]
@@ -210,7 +228,7 @@ fn @name@() {
     let cap = ModKind::Alpha(AlphaMod::@capctor@('α'));
     let r = sub.match_seg_kind(&cap, d, nd, mask);
     let dv = ref_feat(&d, @f@);
-    let mut m = Modifiers::new();
+    let mut m = mods_new();
     m.feats[@g@] = Some(ModKind::Alpha(AlphaMod::@usector@('α')));
     let mut t = t0;
     let r2 = t.apply_seg_mods(&sub.alphas, m.nodes, m.feats, P, false);
@@ -243,7 +261,7 @@ fn @name@() {
             unwindset=UNWINDSET, stubs=STUBS, cap_s=2400, weight=5))
 
     # node alphas
-    node_shapes = [6, 3] if tier == "quick" else [0, 1, 2, 3, 4, 5, 6, 7]
+    node_shapes = [[3, 6, 4, 7][seed % 4]] if tier == "quick" else [0, 1, 2, 3, 4, 5, 6, 7]
     for ni in node_shapes:
         nd = G.NODES[ni]
         nm = "c04_alpha_node_%s" % nd.lower()
@@ -272,7 +290,7 @@ fn @name@() {
     let kind = ModKind::Alpha(AlphaMod::Alpha('α'));
     let r = sub.match_node(d, NodeKind::@nd@, &kind, P);
     match r { Ok(v) => assert!(v, "role=first-use-of-node-alpha-matches"), Err(_) => assert!(false, "role=unexpected-error") }
-    let mut m = Modifiers::new();
+    let mut m = mods_new();
     m.nodes[@ni@] = Some(kind);
     let mut t = t0;
     let r2 = t.apply_seg_mods(&sub.alphas, m.nodes, m.feats, P, false);
@@ -290,7 +308,7 @@ fn @name@() {
 fn c04_twin_reach() {
     let s = any_seg();
     let alphas: RefCell<HashMap<char, Alpha>> = RefCell::new(HashMap::new());
-    let mut m = Modifiers::new();
+    let mut m = mods_new();
     m.feats[15] = Some(ModKind::Binary(any_bin()));
     let mut t = s;
     let r = t.apply_seg_mods(&alphas, m.nodes, m.feats, P, false);
